@@ -209,6 +209,8 @@ class World:
                 ret = proc.fail(exc, None)
             elif op == 'cancel':
                 ret = proc.future().cancel()
+            elif op == 'addl':  # register one more (passive) listener, e.g. from inside a listener callback
+                ret = proc.add_process_listener(plumpy.ProcessListener())
             else:  # pragma: no cover
                 raise AssertionError(op)
         except Exception as exc:  # noqa: BLE001 - what the caller of the control method would see
@@ -374,6 +376,7 @@ def make_runner(cfg_for: Callable[[Any], Config], oracle_factory: Callable[[Any]
                 proc = cls(pid='p0', loop=loop, **world.ctor_kwargs())
                 world.listener = ScriptedListener(world, world.script)
                 proc.add_process_listener(world.listener)
+                proc.add_process_listener(world.listener)  # registering a listener is idempotent
                 proc.add_cleanup(lambda: setattr(world, 'cleanups', world.cleanups + 1))
                 world.task = loop.create_task(proc.step_until_terminated())
                 loop.pump = world.step
